@@ -31,27 +31,29 @@ NOT_DECIDED = {
     "C19": "digest equality for all inputs",
     "C20": "nothing beyond the listed clauses: the check is two-sided on every numeric rule, but acceptance of 'every well-formed transaction' also depends on the serializer (C07)",
 }
+COMMON = ("trace-partitioned abstract interpretation over a term domain (sa/sym.py: symbolic store, canonical forms: renaming, temporaries, De Morgan, early returns, named constants, "
+          "integer linear forms, loop <-> comprehension, helper inlining) ")
 TECH = {
-    "C01": "guard -> interval abstraction (symbolic endpoint = group order), def-use matching of the ECDSA/RFC 6979 formulas, infinity-guard dominance",
-    "C02": "on-curve-by-construction return analysis, modular guard normalisation, infinity-guard dominance, linear blinding identity, sibling prelude comparison",
-    "C03": "abstract interpretation of the import-time dispatch table (256 entries) vs a consensus table; guard intervals; dominance of bounds; flag-plumbing def-use",
-    "C04": "finite partition of all 256 hash types through the branch guards; codec traces of the BIP143 pre-image; freshness/effect analysis",
-    "C05": "effect set with freshness, dominance of low-S normalisation and of the failed-validation handler, sibling comparison of fork-id solvers",
-    "C06": "effect/freshness analysis of the validation call tree, cache-scope def-use, guard intervals on the unspent guard, shared commitment partitions",
-    "C07": "writer/reader codec traces compared field by field; compact-size partition as intervals",
-    "C08": "configuration table predicates over all symbol files; guard intervals on payload lengths; template agreement; minimal-push def-use",
-    "C09": "dominance of the hardened-from-public refusal, cache-key def-use, serialisation layout traces, CKD message shapes",
-    "C10": "finite decision table (prefix byte x length class x strict) through the SEC decoder's guards; intervals vs field prime / order; DER remainder def-use",
-    "C11": "literal tables vs the standards; decode decision guards as intervals; checksum dominance",
-    "C12": "abstract interpretation of the push encoder/decoder registries (captured constants), guard intervals, finite partition of the disassembler over 256 opcodes",
-    "C13": "dominance of insufficiency guards over amount writes; def-use of the fee and pairing definitions; per-input coverage of the mismatch guards",
-    "C14": "header codec traces; merkle check dominance; BIP37 rejection-guard inventory as formulas",
-    "C15": "structural clauses only: argmax idiom, ops/index-map lock-step, affine index maps, work-set consumption consistency, single notion of known hash",
-    "C16": "exhaustive layout/letter table, codec pair wire types, struct call shapes, array symmetry",
-    "C17": "exception-escape analysis of verify_message; header-byte partition; recovery arithmetic kinds",
-    "C18": "exception-escape analysis of all parse entry points; length-guard intervals; binding completeness",
-    "C19": "RIPEMD-160 tables re-derived from the specification's permutations; murmur3 constants; 32-bit width hygiene; selection fall-through",
-    "C20": "guard -> interval abstraction with per-coin symbolic endpoints; def-use of the duplicate-outpoint key; null-outpoint predicate",
+    "C01": COMMON + "+ guard -> interval sets with the group order as symbolic endpoint (r, s, hash, nonce candidates), nonce loop transformer, bits2octets path condition, canonical equality with reviewed reference transcriptions of verify / sign / recover / RFC 6979",
+    "C02": COMMON + "+ on-curve-by-construction return analysis over the symbolic store (coinductive on loop-carried points), modular-comparison atoms, sibling comparison of the scalar reduction in all multiply implementations, linear blinding identity, reference transcriptions of the group law",
+    "C03": "abstract interpretation of the import-time dispatch table (256 entries) vs a consensus table; guard intervals; " + COMMON + "+ canonical equality of all 135 handler / VM / checker functions with reviewed reference transcriptions; older spelling-sensitive rules are subordinate to that comparison",
+    "C04": COMMON + "+ finite partition of all 256 hash types through the branch guards (explicit sets as guard atoms), ordered stream effects of the BIP143 pre-image and sub-hashes, Groestlcoin clone check modulo the hash function, freshness / effect analysis",
+    "C05": COMMON + "+ effect set with freshness, path conditions of the script / witness writes (failed validation), low-S guard as a linear integer atom entailed by the emission's path condition, reference transcriptions of solver and lookups",
+    "C06": "effect / freshness analysis of the validation call tree, cache-scope def-use; " + COMMON + "+ interval sets on the unspent guard, coinbase exemption set, shared sighash partitions (C04)",
+    "C07": COMMON + "+ ordered stream effects of writers / readers compared with reviewed reference transcriptions; compact-size partition as interval sets over the write effects' path conditions",
+    "C08": "configuration table predicates over all symbol files; " + COMMON + "+ payload-length sets relative to the matched prefix, entailment of HRP / version / checksum-variant atoms, network-independence of cached verdicts, template agreement",
+    "C09": COMMON + "+ entailment of the hardened-from-public refusal by the derivation calls' path conditions, index interval, memo-key vs argument comparison, memo freshness, per-item hardening in range expansion, reference transcriptions of CKD / serialization",
+    "C10": COMMON + "+ finite decision table (prefix byte x length class x strict) through the SEC decoder's guards, interval sets vs field prime / order, WIF payload set measured after the prefix strip, reference transcriptions of the DER codec",
+    "C11": "literal tables vs the standards; " + COMMON + "+ must-reject interval sets of the segwit decoder, checksum-equality entailment, canonical any/all atoms, reference transcriptions of base58 / bech32",
+    "C12": "abstract interpretation of the push encoder / decoder registries (captured constants); " + COMMON + "+ finite partition of the disassembler over 256 opcodes, reference transcriptions of push codec and script-number codec",
+    "C13": COMMON + "+ guards-before-writes on effects, skip conditions of the comparison loop, exact-decimal lint, reference transcriptions of the split / fee / validation functions",
+    "C14": COMMON + "+ memo-effectiveness analysis of the block hash, default-argument table of the merkle check, reference transcriptions of header codec, merkle tree and the BIP37 proof verifier (bit-test atoms)",
+    "C15": "structural clauses only: " + COMMON + "+ effect sequence of memo reset, add/remove vs index-map lock-step per loop, work-set consumption lint, entailment of the known-hash skip, reference transcriptions of chain selection and the finder",
+    "C16": "exhaustive layout / letter table by abstract interpretation; " + COMMON + "+ canonical exits of every codec lambda / function, network class arguments, reference transcriptions of array packing and object codecs",
+    "C17": "exception-escape analysis of verify_message; " + COMMON + "+ header-byte and r / s interval sets, message-presence path condition, reference transcriptions of the compact-signature codec, recovery and armour parsing",
+    "C18": "exception-escape analysis of all parse entry points; " + COMMON + "+ payload-length sets, cache-key table, network-independence of cached decoders, prefix-comparison entailment, binding completeness",
+    "C19": "RIPEMD-160 tables re-derived from the specification's permutations; " + COMMON + "+ canonical equality of compression / padding / MurmurHash3 / BIP37 addressing with reviewed reference transcriptions (lane transformers, tail switch decided on len & 3)",
+    "C20": COMMON + "+ interval sets with per-coin symbolic endpoints (values, running total, coinbase script length, size), duplicate-outpoint key fields, null-outpoint predicate as formula equivalence",
 }
 
 props = {}
